@@ -1,0 +1,47 @@
+//go:build verif
+
+// Contracts for package driver, checked by /verif (pverif). Comments only.
+
+package driver
+
+// ---- C09: no panic (zero-annotation safety sweep; contracts carry only what the sweep needs) ----
+
+//@ func locateBinaries
+//@   requires p != nil && s != nil && obj != nil && ui != nil
+//@   requires forall i int :: 0 <= i && i < len(p.Mapping) ==> p.Mapping[i] != nil
+//@   requires forall i int :: 0 <= i && i < len(p.Location) ==> p.Location[i] != nil
+//@   loop 1
+//@     invariant 0 <= $i && $i <= len(p.Mapping) && p != nil && s != nil && obj != nil && ui != nil
+//@     invariant forall i int :: 0 <= i && i < len(p.Mapping) ==> p.Mapping[i] != nil
+//@     invariant forall i int :: 0 <= i && i < len(p.Location) ==> p.Location[i] != nil
+//@   loop 2
+//@     invariant p != nil && s != nil && obj != nil && ui != nil && m != nil
+//@     invariant forall i int :: 0 <= i && i < len(p.Mapping) ==> p.Mapping[i] != nil
+//@     invariant forall i int :: 0 <= i && i < len(p.Location) ==> p.Location[i] != nil
+//@   loop 3
+//@     invariant p != nil && s != nil && obj != nil && ui != nil && m != nil
+//@     invariant forall i int :: 0 <= i && i < len(p.Mapping) ==> p.Mapping[i] != nil
+//@     invariant forall i int :: 0 <= i && i < len(p.Location) ==> p.Location[i] != nil
+//@   loop 4
+//@     invariant 0 <= $i && $i <= len(p.Location) && len(p.Mapping) == 1 && p.Mapping[0] != nil
+//@     invariant forall i int :: 0 <= i && i < len(p.Location) ==> p.Location[i] != nil
+//@ func parseTagFilterRange
+//@   uses measurement.unitsok
+// parseCommandLine: called with the non-empty fields of an input line (interactive, the only caller,
+// establishes this; obligation call.parseCommandLine.requires there).
+//@ func parseCommandLine
+//@   requires len(input) >= 1
+//@   requires forall i int :: 0 <= i && i < len(input) ==> len(input[i]) >= 1
+//@   loop 1
+//@     invariant 0 <= i && i <= len(args)
+//@     invariant forall k int :: 0 <= k && k < len(args) ==> len(args[k]) >= 1
+//@ func interactive
+//@   requires p != nil && o != nil && o.UI != nil
+//@   loop 1
+//@     invariant p != nil && o != nil && o.UI != nil
+//@   loop 2
+//@     invariant p != nil && o != nil && o.UI != nil
+//@ func sampleFormat
+//@   requires p != nil
+//@   requires forall i int :: 0 <= i && i < len(p.SampleType) ==> p.SampleType[i] != nil
+//@   ensures picked: result3 == nil ==> exists i int :: 0 <= i && i < len(p.SampleType) && result2 == p.SampleType[i]
